@@ -268,6 +268,70 @@ fn check_obs(c: &ObsCase, ctx: &Ctx) -> Outcome {
     pass(c.obs.len() >= 2, key_of(&(c.k, c.rc, &wins)), classes)
 }
 
+// ---- the weights in use: pairwise distances over tables with ambiguity codes
+
+fn weight_overlap(a: u8, b: u8) -> f64 {
+    // uniform weight over the code's set; N and '-' carry no weight
+    let set = |c: u8| -> u8 {
+        match c {
+            b'N' | b'-' => 0,
+            x => mask_of_code(x).unwrap_or(0),
+        }
+    };
+    let (sa, sb) = (set(a), set(b));
+    if sa == 0 || sb == 0 {
+        return 0.0;
+    }
+    (sa & sb).count_ones() as f64 / (sa.count_ones() as f64 * sb.count_ones() as f64)
+}
+
+fn check_weights(c: &TableCase, _ctx: &Ctx) -> Outcome {
+    let t = c.table();
+    let n = t.nsamples();
+    if n < 2 {
+        return pass(false, 0, vec!["single_sample"]);
+    }
+    let r = std::panic::catch_unwind(std::panic::AssertUnwindSafe(|| {
+        if c.k <= 31 {
+            make_array::<u64>(&t, c.k, c.rc, false).map(|a| a.distance(0.0))
+        } else {
+            make_array::<u128>(&t, c.k, c.rc, false).map(|a| a.distance(0.0))
+        }
+    }));
+    let d = match r {
+        Ok(Ok(d)) => d,
+        Ok(Err(e)) => return Outcome::Infra(e),
+        Err(e) => return Outcome::Fail(format!("distance() panicked: {}", panic_msg(&e))),
+    };
+    let mut shared_code = false;
+    for i in 0..n {
+        for j in (i + 1)..n {
+            let mut exp = 0.0;
+            for row in t.rows.values() {
+                let (a, b) = (row[i], row[j]);
+                if a != b'-' && b != b'-' {
+                    exp += 1.0 - weight_overlap(a, b);
+                    if a == b && model::sym_is_ambig(a) {
+                        shared_code = true;
+                    }
+                }
+            }
+            let got = d.get(i).and_then(|v| v.get(j - i - 1)).map(|x| x.0);
+            match got {
+                Some(g) if (g - exp).abs() <= 1e-9 * (1.0 + exp.abs()) => {}
+                other => {
+                    return Outcome::Fail(format!(
+                        "distance between columns {i} and {j} is {:?}, expected {exp} (sum over shared k-mers of 1 - overlap of uniform weights over each code's set; N carries none); rows={:?}",
+                        other,
+                        t.rows.values().map(|r| lossy(r)).collect::<Vec<_>>()
+                    ))
+                }
+            }
+        }
+    }
+    pass(shared_code, key_of(&(c.k, t.rows.values().collect::<Vec<_>>())), if shared_code { vec!["pair_sharing_an_ambiguity_code"] } else { vec![] })
+}
+
 fn stages(tier: Tier) -> Vec<Box<dyn Stage>> {
     vec![
         enum_stage(
@@ -283,6 +347,15 @@ fn stages(tier: Tier) -> Vec<Box<dyn Stage>> {
             obs_strategy,
             check_obs,
             |c| json!({"k": c.k, "two_strand": c.rc, "windows": obs_windows(c).iter().map(|w| lossy(w)).collect::<Vec<_>>()}),
+        ),
+        gen_stage_show(
+            "weights_in_use",
+            "generated: symbol tables with ambiguity codes (2-8 samples, 1-30 rows); MergeSkaArray::distance (the computation behind ska distance --allow-ambiguous) must give, for every pair, the sum over k-mers present in both samples of 1 - overlap of the two uniform weight vectors (N carries no weight). Non-trivial: some pair shares the same ambiguity code at a k-mer.",
+            tier.pick(8000, 100_000),
+            800,
+            || table_case_strategy(8, 30, true),
+            check_weights,
+            |c| json!({"k": c.k, "rows": c.table().rows.values().take(8).map(|r| lossy(r)).collect::<Vec<_>>()}),
         ),
     ]
 }
